@@ -34,6 +34,9 @@ TCall(e) ==
      /\ o.rep = e.r
      /\ e.obs.len = Len(o.d) /\ e.obs.b = o.d
      /\ e.obs.cap >= e.obs.len              \* Cap() is not compared, but it cannot be below the content
+     /\ IF e.a.op = "grow" /\ e.r.err = "nil"  \* "After Grow(n), at least n bytes can be written ... without
+          THEN e.obs.cap >= e.obs.len + e.a.n  \*  another allocation": the room is there
+          ELSE TRUE
      /\ e.inmut = TRUE                      \* io.Writer: "Write must not modify the slice data, even temporarily"
      /\ Install(o) /\ last' = e.a
 
